@@ -409,13 +409,8 @@ fn b_relay_to_mux_coalesced() {
 }
 
 /// local EOF (immediately, or right after one chunk): data first, then exactly one Finish; the
-/// mux -> local direction keeps working
-#[cfg_attr(kani, kani::proof)]
-#[cfg_attr(kani, kani::stub(catch_unwind, call_through))]
-#[cfg_attr(kani, kani::unwind(6))]
-#[cfg_attr(verif_replay, test)]
-fn b_local_eof_sends_finish() {
-    let with_data: bool = kani::any();
+/// mux -> local direction keeps working.  One harness per shape (control flow concrete).
+fn local_eof_contract(with_data: bool) {
     let x: u8 = kani::any();
     let mut io = ScriptIo::new();
     if with_data {
@@ -448,6 +443,23 @@ fn b_local_eof_sends_finish() {
     assert!(out_empty(&mut w.tx_msg_rx), "C13.leof.idempotent");
     assert!(read_dir_has_wakeup(&b, &d), "C13.wakeup");
     core::mem::forget((b, d, w));
+}
+
+#[cfg_attr(kani, kani::proof)]
+#[cfg_attr(kani, kani::stub(catch_unwind, call_through))]
+#[cfg_attr(kani, kani::unwind(6))]
+#[cfg_attr(verif_replay, test)]
+fn b_local_eof_sends_finish() {
+    local_eof_contract(false)
+}
+
+/// as above with one chunk read before the EOF: Push first, then the Finish
+#[cfg_attr(kani, kani::proof)]
+#[cfg_attr(kani, kani::stub(catch_unwind, call_through))]
+#[cfg_attr(kani, kani::unwind(6))]
+#[cfg_attr(verif_replay, test)]
+fn b_local_eof_after_data_sends_push_then_finish() {
+    local_eof_contract(true)
 }
 
 /// no credit: nothing is consumed from the local side and nothing is sent
